@@ -247,7 +247,15 @@ impl Report {
     /// Write evidence, print verdict lines, return the process exit code.
     pub fn finish(self) -> i32 {
         let findings = load_findings();
-        let viol = self.violations.lock().unwrap();
+        for (i, msg) in ITEM_PANICS.lock().unwrap_or_else(|x| x.into_inner()).drain(..) {
+            self.violation(Violation {
+                key: format!("{}/panic-on-valid-input", self.id.to_lowercase()),
+                what: format!("evaluating item #{i} of an enumerated grid panicked: {}", msg.chars().take(300).collect::<String>()),
+                replay: json!({"grid_item": i, "panic": msg.chars().take(300).collect::<String>()}),
+            });
+            self.cap_hit("a grid item panicked: the enumeration was stopped early");
+        }
+        let viol = self.violations.lock().unwrap_or_else(|x| x.into_inner());
         let mut unlisted = 0u64;
         let mut listed = 0u64;
         let mut lines: Vec<String> = vec![];
@@ -375,19 +383,40 @@ pub fn machinery_error(msg: &str) -> ! {
     std::process::exit(2)
 }
 
-/// Dynamic parallel loop over `0..n` (chunked atomic counter), `f(i)` on worker threads.
+/// Panics raised while a grid item was being evaluated (item index, message). A panic inside the checked
+/// library function on a valid input is a finding against the property ("completes", "for every input"), not
+/// a failure of the machinery: `Report::finish` turns these into violations `<id>/panic-on-valid-input`.
+pub static ITEM_PANICS: Mutex<Vec<(usize, String)>> = Mutex::new(Vec::new());
+
+/// Dynamic parallel loop over `0..n` (chunked atomic counter), `f(i)` on worker threads. A panicking item is
+/// recorded in `ITEM_PANICS`; after three of them the loop stops handing out work.
 pub fn par_for<F: Fn(usize) + Sync>(n: usize, chunk: usize, f: F) {
     let next = AtomicUsize::new(0);
     let threads = n_threads().min(n.max(1));
+    let stop = std::sync::atomic::AtomicBool::new(false);
     std::thread::scope(|s| {
         for _ in 0..threads {
             s.spawn(|| loop {
                 let lo = next.fetch_add(chunk, Ordering::Relaxed);
-                if lo >= n {
+                if lo >= n || stop.load(Ordering::Relaxed) {
                     break;
                 }
                 for i in lo..(lo + chunk).min(n) {
-                    f(i);
+                    if let Err(e) = std::panic::catch_unwind(std::panic::AssertUnwindSafe(|| f(i))) {
+                        let msg = if let Some(s) = e.downcast_ref::<&str>() {
+                            s.to_string()
+                        } else if let Some(s) = e.downcast_ref::<String>() {
+                            s.clone()
+                        } else {
+                            "<non-string panic>".to_string()
+                        };
+                        let mut p = ITEM_PANICS.lock().unwrap_or_else(|x| x.into_inner());
+                        p.push((i, msg));
+                        if p.len() >= 3 {
+                            stop.store(true, Ordering::Relaxed);
+                        }
+                        break;
+                    }
                 }
             });
         }
